@@ -14,7 +14,7 @@
  *   loadfail <rc>                                  (then endcase)
  *   mod <marker> <rst> <spd> <bpm> <maxframes>     \
  *   xxo <o0> <o1> …                                 | model input (driver reads these)
- *   pat <i> <rows> <row>:<s|t|d|j|x>:<param> …      |
+ *   pat <i> <rows> <row>:<s|t|d|r|j|x>:<param> …    |   (r = IT row delay SEx)
  *   end                                            /
  *   aux chn <n> nobpm <0|1> cmpvbl <m->compare_vblank> tf <time_factor> rrate <rrate> vocab <ok|bad>
  *   scan ok nseq <n>
@@ -24,8 +24,14 @@
  *   play <k> frames <n> rows <r> total <us> loopinc <true|false>
  *   r <idx> <pos> <row> <speed> <bpm> <nframes> <regular> <us before> <fi.time us>
  *   rowhash <fnv of all (pos,row,speed,bpm,nframes,regular)>
+ *   tour <visits> ok <n>                           (reposition tour, multi-sequence modules only)
  *   oracle_fail <kind> …
  *   endcase
+ *
+ * Reposition tour (oracle only): with ONE running player, play part of a sequence, xmp_set_position to
+ * the entry point of another one, render it until the loop counter increments and compare the rendered
+ * time and the row trace with the reported duration / the trace of the fresh run; go on to the next
+ * sequence (and back).  The speed / tempo the previous sequence ended with must not leak.
  */
 #include "vcommon.h"
 #include <xmp.h>
@@ -41,6 +47,14 @@ struct rowg {
 
 static struct rowg *rows;
 static int nrows, caprows;
+
+/* flow effect of every pattern row, as dumped (for the IT row delay repeats) */
+static char rowfx_kind[256][256];
+static unsigned char rowfx_param[256][256];
+
+/* per sequence: what the fresh run rendered (for the reposition tour) */
+static uint64_t fresh_hash[256];
+static int fresh_frames[256], fresh_ok[256];
 
 static void push_row(struct rowg *g)
 {
@@ -80,9 +94,10 @@ static char classify(struct module_data *m, int fxt, int fxp, int *param)
 		if ((fxp >> 4) == EX_PATTERN_LOOP)
 			return 'x';
 		return 0;
+	case FX_IT_ROWDELAY:
+		return fxp <= 15 ? 'r' : 'x';
 	case FX_BREAK:
 	case FX_IT_BREAK:
-	case FX_IT_ROWDELAY:
 	case FX_LINE_JUMP:
 	case FX_SPEED_CP:
 	case FX_ICE_SPEED:
@@ -141,6 +156,10 @@ static int dump_module(struct context_data *ctx, int maxframes)
 				kind = 'x';
 			if (kind == 'x')
 				bad = 1;
+			if (i < 256 && r < 256) {
+				rowfx_kind[i][r] = kind;
+				rowfx_param[i][r] = (unsigned char)param;
+			}
 			if (kind)
 				printf(" %d:%c:%d", r, kind, param);
 		}
@@ -173,8 +192,10 @@ static void play_sequence(xmp_context opaque, int k, int rate, int maxframes)
 	double total = 0.0, min_tick = 1e9;
 	long total_fi_us = 0, total_samples = 0;
 	int frames = 0, loopinc = 0, late = 0, rc, i;
+	int repeats = 0;	/* consecutive IT row delay repeats of the current row */
 	uint64_t h = FNV_INIT;
 
+	fresh_ok[k & 255] = 0;
 	nrows = 0;
 	memset(played, 0, sizeof(played));
 	memset(entered, 0, sizeof(entered));
@@ -205,9 +226,17 @@ static void play_sequence(xmp_context opaque, int k, int rate, int maxframes)
 		}
 		if (fi.loop_count > 0) {
 			/* The loop counter must increment exactly on re-entering a row already played
-			 * (or on entering an order that belongs to another sequence). */
+			 * (or on entering an order that belongs to another sequence); the repeats of an
+			 * IT row delay (SEx: the row is entered 1 + x times) are not re-entries. */
 			int foreign = p->sequence_control[fi.pos] != k;
+			int pat = mod->xxo[fi.pos];
+			int legit = fi.frame == 0 && nrows > 0 && rows[nrows - 1].pos == fi.pos && rows[nrows - 1].row == fi.row &&
+				pat < 256 && fi.row < 256 && rowfx_kind[pat][fi.row] == 'r' && repeats < rowfx_param[pat][fi.row];
 			loopinc = 1;
+			if (!late && legit) {
+				printf("oracle_fail loop_early seq %d frame %d pos %d row %d: loop counter incremented inside a row delay\n",
+				       k, frames, fi.pos, fi.row);
+			} else
 			if (!late && (fi.frame != 0 || !(played[fi.pos][fi.row & 255] || foreign))) {
 				printf("oracle_fail loop_early seq %d frame %d pos %d row %d fr %d: loop counter incremented on a row not played before\n",
 				       k, frames, fi.pos, fi.row, fi.frame);
@@ -220,7 +249,11 @@ static void play_sequence(xmp_context opaque, int k, int rate, int maxframes)
 		if (fi.frame == 0) {
 			struct rowg g;
 			int foreign = p->sequence_control[fi.pos] != k;
-			if ((played[fi.pos][fi.row & 255] || foreign) && !late) {
+			int pat = mod->xxo[fi.pos];
+			int legit = nrows > 0 && rows[nrows - 1].pos == fi.pos && rows[nrows - 1].row == fi.row &&
+				pat < 256 && fi.row < 256 && rowfx_kind[pat][fi.row] == 'r' && repeats < rowfx_param[pat][fi.row];
+			repeats = legit ? repeats + 1 : 0;
+			if ((played[fi.pos][fi.row & 255] || foreign) && !late && !legit) {
 				/* reported once; rendering goes on so that the trace can still be compared with the model */
 				late = 1;
 				printf("oracle_fail loop_late seq %d frame %d pos %d row %d: row %s re-entered without loop counter increment\n",
@@ -314,6 +347,124 @@ static void play_sequence(xmp_context opaque, int k, int rate, int maxframes)
 			       us(g->t_before), (long)g->fi_time * 1000L);
 	}
 	printf("rowhash %llu\n", (unsigned long long)h);
+	if (!late) {
+		fresh_hash[k & 255] = h;
+		fresh_frames[k & 255] = frames;
+		fresh_ok[k & 255] = 1;
+	}
+}
+
+/* Reposition tour: one running player, xmp_set_position from sequence to sequence. */
+static void tour(xmp_context opaque, int rate, int maxframes, uint64_t seed)
+{
+	struct context_data *ctx = (struct context_data *)opaque;
+	struct module_data *m = &ctx->m;
+	struct player_data *p = &ctx->p;
+	struct xmp_frame_info fi;
+	int nseq = m->num_sequences, visits = 0, okv = 0, v, k, i, rc;
+	uint64_t rng = seed | 1;
+	int budget = maxframes;
+
+	if (nseq < 2 || nseq > 255)
+		return;
+	for (k = 0; k < nseq; k++) {
+		if (!fresh_ok[k])
+			return;		/* capped or already failing: the per-sequence oracle has reported */
+	}
+	if (xmp_start_player(opaque, rate, XMP_FORMAT_MONO | XMP_FORMAT_8BIT) != 0) {
+		printf("oracle_fail tour_start\n");
+		return;
+	}
+	/* play a part of the main sequence first, so that the player state is in the middle of it */
+	rng = rng * 6364136223846793005ULL + 1442695040888963407ULL;
+	for (i = (int)((rng >> 33) % (uint64_t)(fresh_frames[0] + 1)); i > 0 && budget > 0; i--, budget--) {
+		if (xmp_play_frame(opaque) != 0)
+			break;
+	}
+	/* visit every sequence twice, in an order that changes the predecessor: 1, 2, …, n-1, 0, n-1, …, 1, 0 */
+	for (v = 0; v < 2 * nseq && budget > 0; v++) {
+		int ep, duration, base, frames = 0, nr = 0, lpos = -1, lrow = -1, ln = 0, lspeed = 0, lbpm = 0, lreg = 1;
+		double total = 0.0, min_tick = 1e9;
+		uint64_t h = FNV_INIT;
+		int done = 0, extra;
+
+		k = v < nseq ? (v + 1) % nseq : (2 * nseq - 1 - v) % nseq;
+		ep = m->seq_data[k].entry_point;
+		duration = m->seq_data[k].duration;
+		xmp_set_position(opaque, ep);
+		if (p->pos == p->ord)
+			continue;	/* the target (after skip markers) is the order being played: xmp_play_frame sees no
+					 * reposition and goes on in the middle of it -- not a run from the sequence start */
+		xmp_get_frame_info(opaque, &fi);
+		base = fi.loop_count;
+		visits++;
+		while (budget-- > 0) {
+			double ft;
+			rc = xmp_play_frame(opaque);
+			if (rc != 0) {
+				printf("oracle_fail tour_play_frame seq %d visit %d rc %d\n", k, v, rc);
+				break;
+			}
+			xmp_get_frame_info(opaque, &fi);
+			if (fi.sequence != k) {
+				printf("oracle_fail tour_sequence seq %d visit %d reports %d\n", k, v, fi.sequence);
+				break;
+			}
+			if (fi.loop_count > base) {
+				done = 1;
+				break;
+			}
+			ft = p->frame_time;
+			if (ft < min_tick)
+				min_tick = ft;
+			if (fi.frame == 0) {
+				if (nr > 0) {
+					int w[6], j;
+					w[0] = lpos; w[1] = lrow; w[2] = lspeed; w[3] = lbpm; w[4] = ln; w[5] = lreg;
+					for (j = 0; j < 6; j++)
+						h = (h ^ (uint64_t)w[j]) * 0x100000001b3ULL;
+				}
+				nr++;
+				lpos = fi.pos; lrow = fi.row; lspeed = fi.speed; lbpm = fi.bpm; ln = 1; lreg = 1;
+			} else {
+				if (nr == 0 || fi.pos != lpos || fi.row != lrow || fi.speed != lspeed || fi.bpm != lbpm || fi.frame != ln)
+					lreg = 0;
+				ln++;
+			}
+			total += ft;
+			frames++;
+		}
+		if (!done)
+			break;		/* frame budget used up (or reported above) */
+		if (nr > 0) {
+			int w[6], j;
+			w[0] = lpos; w[1] = lrow; w[2] = lspeed; w[3] = lbpm; w[4] = ln; w[5] = lreg;
+			for (j = 0; j < 6; j++)
+				h = (h ^ (uint64_t)w[j]) * 0x100000001b3ULL;
+		}
+		if (min_tick > 1e8)
+			min_tick = 0.0;
+		if (fabs((double)duration - total) >= min_tick) {
+			printf("oracle_fail tour_duration seq %d visit %d after reposition: reported %d ms rendered %.3f ms (one tick = %.3f ms)\n",
+			       k, v, duration, total, min_tick);
+		} else if (frames != fresh_frames[k] || h != fresh_hash[k]) {
+			printf("oracle_fail tour_rows seq %d visit %d after reposition: %d frames hash %llu, fresh run %d frames hash %llu\n",
+			       k, v, frames, (unsigned long long)h, fresh_frames[k], (unsigned long long)fresh_hash[k]);
+		} else {
+			okv++;
+		}
+		if (fi.total_time != duration)
+			printf("oracle_fail tour_total_time seq %d visit %d frame_info.total_time %d duration %d\n", k, v, fi.total_time, duration);
+		/* go on into the loop for a while: the next reposition starts from the middle of this sequence */
+		rng = rng * 6364136223846793005ULL + 1442695040888963407ULL;
+		extra = (int)((rng >> 33) % (uint64_t)(fresh_frames[k] + 1));
+		for (i = 0; i < extra && budget > 0; i++, budget--) {
+			if (xmp_play_frame(opaque) != 0)
+				break;
+		}
+	}
+	xmp_end_player(opaque);
+	printf("tour %d ok %d\n", visits, okv);
 }
 
 int main(int argc, char **argv)
@@ -360,6 +511,15 @@ int main(int argc, char **argv)
 				printf("oracle_fail seq_data seq %d scan time %d duration %d\n", k, p->scan[k].time, m->seq_data[k].duration);
 			if (!bad)
 				play_sequence(opaque, k, rate, maxframes);
+			else if (k < 256)
+				fresh_ok[k] = 0;
+		}
+		if (!bad) {
+			uint64_t sd = FNV_INIT;
+			const char *q = strrchr(argv[a], '/');
+			for (q = q ? q + 1 : argv[a]; *q; q++)
+				sd = (sd ^ (uint64_t)(unsigned char)*q) * 0x100000001b3ULL;
+			tour(opaque, rate, maxframes, sd ^ (uint64_t)mod->len * 977u);
 		}
 		printf("endcase\n");
 		fflush(stdout);
